@@ -708,7 +708,12 @@ class Sock:
     def sendall(self, b): self.sent.append(bytes(b))
     def close(self): pass
     def fileno(self): return 0
-pc.select.select = lambda r, w, x, t=None: (r, w, x)
+import select as _sel
+_ready = lambda r, w, x, t=None: (r, w, x)
+for _k, _v in list(vars(pc).items()):          # `from select import select [as ...]` in client.py
+    if _v is _sel.select:
+        setattr(pc, _k, _ready)
+_sel.select = _ready                           # `select.select(...)`
 out = {}
 for timecode in (False, True):
     c = pc.Client(module_id=11, timecode=timecode)
